@@ -10,6 +10,7 @@ import (
 	"io"
 	"math/rand"
 	"os"
+	"os/exec"
 	"path/filepath"
 	"regexp"
 	"runtime"
@@ -473,79 +474,81 @@ func gzipWrap(r *rand.Rand, b []byte) []byte {
 	}
 }
 
+func buildInputs(kind string, r *rand.Rand) (inputs [][]byte, what []string) {
+	loadCorpus()
+	add := func(b []byte, w string) { inputs = append(inputs, b); what = append(what, w) }
+	switch kind {
+	case "wire":
+		base := smallCodec(r)
+		if len(protoCorpus) > 0 && r.Intn(6) == 0 {
+			if g := gunzip(protoCorpus[r.Intn(len(protoCorpus))]); len(g) > 0 && len(g) < 20000 {
+				base = g
+			}
+		}
+		add(base, "valid encoding")
+		for k := 0; k < 24; k++ {
+			m := base
+			for j, n := 0, 1+r.Intn(3); j < n; j++ {
+				m = mutateTree(r, m, 0)
+			}
+			add(m, "tree mutant")
+		}
+		for k := 0; k < 12; k++ {
+			add(byteMutate(r, base), "byte mutant")
+		}
+		if len(base) <= 300 {
+			for i := 0; i < len(base); i++ {
+				add(base[:i], "truncation")
+			}
+		}
+	case "soup":
+		for k := 0; k < 30; k++ {
+			add(soup(r, r.Intn(14)), "field soup")
+		}
+	case "legacy":
+		var doc []byte
+		if len(legacyCorpus) > 0 && r.Intn(3) == 0 {
+			doc = legacyCorpus[r.Intn(len(legacyCorpus))]
+		} else {
+			doc, _ = legacy.RandomDoc(r)
+		}
+		add(doc, "legacy document")
+		for k := 0; k < 20; k++ {
+			add(textMutate(r, doc), "legacy text mutant")
+		}
+		for k := 0; k < 6; k++ {
+			add(byteMutate(r, doc), "legacy byte mutant")
+		}
+	case "cpubin":
+		for k := 0; k < 20; k++ {
+			b := cpuBinary(r)
+			add(b, "binary cpu")
+			add(byteMutate(r, b), "binary cpu mutant")
+		}
+	case "wrap":
+		base := smallCodec(r)
+		other := soup(r, 5)
+		if len(legacyCorpus) > 0 {
+			other = legacyCorpus[r.Intn(len(legacyCorpus))]
+			if len(other) > 3000 {
+				other = other[:3000]
+			}
+		}
+		for k := 0; k < 6; k++ {
+			add(gzipWrap(r, base), "gzip wrapper")
+			add(gzipWrap(r, other), "gzip wrapper of other")
+		}
+		add(append(append([]byte{}, base...), base...), "concatenation")
+		add(append(append([]byte{}, base...), other...), "concatenation with other")
+		add(append(append([]byte{}, other...), base...), "concatenation other first")
+		add(append(gz(base), gz(base)...), "two gzip members")
+	}
+	return inputs, what
+}
+
 func runInputs(kind string) func(c *harness.Ctx) harness.Result {
 	return func(c *harness.Ctx) harness.Result {
-		loadCorpus()
-		r := c.Rng
-		var inputs [][]byte
-		var what []string
-		add := func(b []byte, w string) { inputs = append(inputs, b); what = append(what, w) }
-		switch kind {
-		case "wire":
-			base := smallCodec(r)
-			if len(protoCorpus) > 0 && r.Intn(6) == 0 {
-				if g := gunzip(protoCorpus[r.Intn(len(protoCorpus))]); len(g) > 0 && len(g) < 20000 {
-					base = g
-				}
-			}
-			add(base, "valid encoding")
-			for k := 0; k < 24; k++ {
-				m := base
-				for j, n := 0, 1+r.Intn(3); j < n; j++ {
-					m = mutateTree(r, m, 0)
-				}
-				add(m, "tree mutant")
-			}
-			for k := 0; k < 12; k++ {
-				add(byteMutate(r, base), "byte mutant")
-			}
-			if len(base) <= 300 {
-				for i := 0; i < len(base); i++ {
-					add(base[:i], "truncation")
-				}
-			}
-		case "soup":
-			for k := 0; k < 30; k++ {
-				add(soup(r, r.Intn(14)), "field soup")
-			}
-		case "legacy":
-			var doc []byte
-			if len(legacyCorpus) > 0 && r.Intn(3) == 0 {
-				doc = legacyCorpus[r.Intn(len(legacyCorpus))]
-			} else {
-				doc, _ = legacy.RandomDoc(r)
-			}
-			add(doc, "legacy document")
-			for k := 0; k < 20; k++ {
-				add(textMutate(r, doc), "legacy text mutant")
-			}
-			for k := 0; k < 6; k++ {
-				add(byteMutate(r, doc), "legacy byte mutant")
-			}
-		case "cpubin":
-			for k := 0; k < 20; k++ {
-				b := cpuBinary(r)
-				add(b, "binary cpu")
-				add(byteMutate(r, b), "binary cpu mutant")
-			}
-		case "wrap":
-			base := smallCodec(r)
-			other := soup(r, 5)
-			if len(legacyCorpus) > 0 {
-				other = legacyCorpus[r.Intn(len(legacyCorpus))]
-				if len(other) > 3000 {
-					other = other[:3000]
-				}
-			}
-			for k := 0; k < 6; k++ {
-				add(gzipWrap(r, base), "gzip wrapper")
-				add(gzipWrap(r, other), "gzip wrapper of other")
-			}
-			add(append(append([]byte{}, base...), base...), "concatenation")
-			add(append(append([]byte{}, base...), other...), "concatenation with other")
-			add(append(append([]byte{}, other...), base...), "concatenation other first")
-			add(append(gz(base), gz(base)...), "two gzip members")
-		}
+		inputs, what := buildInputs(kind, c.Rng)
 		res := harness.Result{NonTrivial: true, Sig: fmt.Sprintf("%s/%d/%d", kind, len(inputs), len(inputs[0]))}
 		res.Sample = map[string]any{"kind": kind, "inputs": len(inputs), "first_input_hex": fmt.Sprintf("%x", trunc(inputs[0], 60))}
 		for i, in := range inputs {
@@ -571,6 +574,65 @@ func trunc(b []byte, n int) []byte {
 	return b
 }
 
+// the real executable on hostile files: exit status 0..2, an error message whenever it fails, never
+// a Go panic or fatal error on stderr
+func runExe(c *harness.Ctx) harness.Result {
+	r := c.Rng
+	bin := filepath.Join(os.Getenv("VERIF_BIN"), "pprof")
+	if _, err := os.Stat(bin); err != nil {
+		return harness.Result{Verdict: harness.Inconclusive, Detail: "bin/pprof not built: " + err.Error()}
+	}
+	kind := []string{"wire", "soup", "legacy", "cpubin", "wrap"}[r.Intn(5)]
+	inputs, what := buildInputs(kind, r)
+	res := harness.Result{NonTrivial: true, Sig: fmt.Sprintf("exe/%s/%d", kind, c.Index), Sample: map[string]any{"kind": kind, "via": "pprof -top|-raw|-traces <file>"}}
+	for k := 0; k < 6; k++ {
+		i := r.Intn(len(inputs))
+		if len(inputs[i]) > 1<<20 {
+			continue
+		}
+		path := filepath.Join(c.Tmp, fmt.Sprintf("in%d", k))
+		if err := os.WriteFile(path, inputs[i], 0o644); err != nil {
+			return harness.Result{Verdict: harness.Inconclusive, Detail: err.Error()}
+		}
+		format := []string{"-top", "-raw", "-traces"}[r.Intn(3)]
+		cmd := exec.Command(bin, format, "-symbolize=none", path)
+		cmd.Env = []string{"HOME=" + c.Tmp, "XDG_CONFIG_HOME=" + c.Tmp + "/config", "PPROF_TMPDIR=" + c.Tmp + "/tmp", "TZ=UTC", "PATH="}
+		cmd.Dir = c.Tmp
+		var so, se bytes.Buffer
+		cmd.Stdout, cmd.Stderr = &so, &se
+		cmd.Stdin = strings.NewReader("")
+		if err := cmd.Start(); err != nil {
+			return harness.Result{Verdict: harness.Inconclusive, Detail: err.Error()}
+		}
+		done := make(chan error, 1)
+		go func() { done <- cmd.Wait() }()
+		select {
+		case <-done:
+		case <-time.After(2 * time.Minute):
+			cmd.Process.Kill()
+			return harness.Result{Verdict: harness.Inconclusive, Detail: fmt.Sprintf("watchdog: pprof %s on input %d did not finish in 2 min (%s)", format, i, what[i])}
+		}
+		c.Stat("exe_runs", 1)
+		code := cmd.ProcessState.ExitCode()
+		errs := se.String()
+		if code == 0 {
+			c.Stat("exe_accepted", 1)
+		} else {
+			c.Stat("exe_rejected", 1)
+		}
+		if strings.Contains(errs, "panic:") || strings.Contains(errs, "fatal error:") || strings.Contains(errs, "goroutine 1 [running]") || code < 0 || code > 2 {
+			res.Verdict = harness.Violated
+			res.Detail = fmt.Sprintf("pprof %s <file> exited abnormally (status %d) on %s/%s:\n%s\ninput hex: %x", format, code, kind, what[i], harness.Trunc(errs, 2500), trunc(inputs[i], 2000))
+			return res
+		}
+		if code != 0 && strings.TrimSpace(errs) == "" {
+			res.Verdict, res.Detail = harness.Violated, fmt.Sprintf("pprof %s <file> exited with status %d without any message on %s/%s\ninput hex: %x", format, code, kind, what[i], trunc(inputs[i], 2000))
+			return res
+		}
+	}
+	return res
+}
+
 func init() {
 	harness.Register(&harness.Check{
 		ID:               "C02",
@@ -579,7 +641,7 @@ func init() {
 		CaseTimeout:      2 * time.Minute,
 		HangTries:        3,
 		Rule: "each case expands into 20-300 inputs of one family: wire (valid codec-class encodings, mutated on an independently decoded wire tree: varint games, wire-type/field-number swaps, duplicated/deleted/reordered fields, missing string table, nested damage, id 0/huge; byte mutants; every truncation for encodings <=300 B), soup (random field soups over profile.proto numbers), legacy (documents from the C14 printers and repository testdata, token-level mutants: huge/negative/non-numeric numbers, deleted/duplicated/swapped lines, CRLF, missing sentinels), cpubin (binary CPU profiles, both endiannesses and word sizes, hostile counts), wrap (gzip wrappers: valid, truncated, corrupt, double, header only, trailing garbage; concatenations). " +
-			"oracle: no panic; exactly one of error/profile; returned profile passes the independent validity checker; Write/WriteUncompressed/String/Copy/Compact and 9 report formats x 2 variants complete; accepted inputs round-trip (C01 oracle); ParseData allocation <= 1024*(len+gunzipped)+3MiB; a case (<=300 inputs, typically well under a second) that does not finish within 2 min in 3 of 3 fresh worker processes is a hang (violation, with goroutine dump); a single timeout is inconclusive. non-trivial = every case; distinct = (family, input count, base length)",
+			"part exe: six inputs of a random family given as files to the real executable (pprof -top|-raw|-traces -symbolize=none <file>): exit status 0..2, a message on stderr whenever it fails, no Go panic/fatal error. oracle: no panic; exactly one of error/profile; returned profile passes the independent validity checker; Write/WriteUncompressed/String/Copy/Compact and 9 report formats x 2 variants complete; accepted inputs round-trip (C01 oracle); ParseData allocation <= 1024*(len+gunzipped)+3MiB; a case (<=300 inputs, typically well under a second) that does not finish within 2 min in 3 of 3 fresh worker processes is a hang (violation, with goroutine dump); a single timeout is inconclusive. non-trivial = every case; distinct = (family, input count, base length)",
 		Assumptions: []string{"'promptly' is restated as an allocation bound proportional to input size plus the 3-of-3 hang rule (2 min per case of <=300 small inputs, about 1000x the typical case time)", "inputs bounded to 1 MiB"},
 		Parts: []harness.Part{
 			{Name: "wire", Quick: 400, Thor: 40000, Run: runInputs("wire")},
@@ -587,6 +649,7 @@ func init() {
 			{Name: "legacy", Quick: 300, Thor: 30000, Run: runInputs("legacy")},
 			{Name: "cpubin", Quick: 100, Thor: 10000, Run: runInputs("cpubin")},
 			{Name: "wrap", Quick: 100, Thor: 10000, Run: runInputs("wrap")},
+			{Name: "exe", Quick: 60, Thor: 3000, Run: runExe},
 		},
 		MinNonTrivial: func(string) int { return 200 },
 		Finish: func(tier string, st map[string]int64) string {
